@@ -165,4 +165,16 @@ PROPS = {
         "assumptions": ["datagrams are at most 1020 bytes (larger ones are truncated by recv, as the specification's maximum packet size implies)", "no datagram is empty"],
         "timeout": {"quick": 900, "thorough": 7200},
     },
+    "C20": {
+        "level_text": "Lean theorems on the model of WebsocketStream's poll_read / poll_write: for every message sequence (frames one per message, several per message, split across messages, messages of any size, text/ping/pong interleaved, empty binary messages) and every sequence of caller buffer sizes, the chunks served, the buffered remainder and the queued payloads are exactly all binary payloads in order; a non-binary message in front changes nothing about what a read serves; a served chunk is empty only when the stream is closed and nothing is left (the zero-byte read the connection reports as disconnected); each write is one binary message holding exactly the frame. The delivered byte stream then goes through the same read loop as TCP (C05). Tied at adaptor level by correspondence over a loopback tungstenite server with harness-chosen buffer sizes, and at connection level by an oracle comparing packets read over the WebSocket with the per-frame results of the same byte stream (every split of a short stream, random partitions incl. messages above 1020 bytes, undecodable frames, replies observed by the server).",
+        "level_note": "Trusted: Lean kernel; the harness incl. its loopback server. tungstenite's Stream/Sink behaviour (one Message::Binary in = one out, ping/pong handled internally, flush timing: poll_write ignores a Pending flush) is run-time behaviour of the dependency: 'leaves as exactly one message' is proved for the adaptor's calls and observed at the peer.",
+        "technique": "Lean 4 proof (stream-conservation invariant by functional induction over poll_read) + differential correspondence and oracle over a loopback WebSocket server",
+        "trusted": [
+            "hand-modelled, tied by the correspondence run only: WebsocketStream::poll_read / poll_write",
+            "modelled not verified: tokio-tungstenite 0.24 (message framing, close handshake, flush), the loopback TCP stack",
+        ],
+        "rule": "ws.adaptor lines: message sequence x offered sizes x closed/open; ws.session / ws.write are oracle-only evaluations over real Framed connections; distinct = distinct op text",
+        "assumptions": ["poll_ready of the sink is Ready when a packet is written (a busy sink makes poll_write return Pending, which write_all_buf retries)"],
+        "timeout": {"quick": 900, "thorough": 7200},
+    },
 }
